@@ -13,8 +13,9 @@ SEEDED = os.path.join(VERIF, 'seeded')
 
 
 def main():
-    ids = sys.argv[1:] or sorted(d for d in os.listdir(SEEDED) if os.path.isdir(os.path.join(SEEDED, d)))
-    for sid in ids:
+    table_only = '--table-only' in sys.argv
+    ids = [a for a in sys.argv[1:] if not a.startswith('--')] or sorted(d for d in os.listdir(SEEDED) if os.path.isdir(os.path.join(SEEDED, d)))
+    for sid in ([] if table_only else ids):
         d = os.path.join(SEEDED, sid)
         pid = sid.split('-')[0]
         p = subprocess.run(['python3-vt', os.path.join(VERIF, 'harness', 'seedtest.py'), d, pid], stdout=subprocess.PIPE,
@@ -25,8 +26,8 @@ def main():
         meta = {
             'id': sid, 'property': pid,
             'origin': 'written by a fresh sub-agent that saw only the property text and a scratch worktree of /repo (nothing from /verif)',
-            'files_changed': am.get('files_changed') or am.get('files') or am.get('file'),
-            'what_changes': am.get('description') or am.get('change') or am.get('summary'),
+            'files_changed': __import__('re').findall(r'^\+\+\+ b/(\S+)', open(os.path.join(d, 'patch.diff')).read(), __import__('re').M),
+            'what_changes': am.get('summary') or am.get('description') or am.get('change'),
             'needs_to_manifest': am.get('needs_to_manifest') or am.get('needs') or am.get('trigger'),
             'why_tests_pass': am.get('why_tests_pass') or am.get('why_suite_passes'),
             'confirmed_by_me': {
@@ -50,7 +51,7 @@ def main():
             continue
         m = json.load(open(mp))
         det = (m['check_result'].get('detail') or {})
-        rows.append('| %s | %s | %s | %s | %s |' % (sid, str(m.get('files_changed'))[:60], 'yes' if m['caught_by'] else '**NO**',
+        rows.append('| %s | %s | %s | %s | %s |' % (sid, ', '.join(os.path.basename(x) for x in (m.get('files_changed') or [])), 'yes' if m['caught_by'] else '**NO**',
                                                    (det.get('kind') or '-'), str(det.get('clause') or det.get('no_longer_checks') or '-')[:110]))
     with open(os.path.join(SEEDED, 'RESULTS.md'), 'w') as f:
         f.write('# Seeded changes and which check reports them\n\nEvery change compiles, passes the repository test suite (586 tests) and breaks '
